@@ -139,7 +139,8 @@ impl core::ops::Add<u16x16> for u16x16 {
             if #[cfg(all(feature = "simd", target_arch = "aarch64", target_feature = "neon"))] {
                 impl_aarch64_call!(vaddq_u16, self, rhs)
             } else {
-                impl_u16x16_op!(self, add, rhs)
+                // Lanes wrap around like the SIMD instructions do (and like a release build).
+                impl_u16x16_op!(self, wrapping_add, rhs)
             }
         }
     }
@@ -154,7 +155,8 @@ impl core::ops::Sub<u16x16> for u16x16 {
             if #[cfg(all(feature = "simd", target_arch = "aarch64", target_feature = "neon"))] {
                 impl_aarch64_call!(vsubq_u16, self, rhs)
             } else {
-                impl_u16x16_op!(self, sub, rhs)
+                // Lanes wrap around like the SIMD instructions do (and like a release build).
+                impl_u16x16_op!(self, wrapping_sub, rhs)
             }
         }
     }
@@ -169,7 +171,8 @@ impl core::ops::Mul<u16x16> for u16x16 {
             if #[cfg(all(feature = "simd", target_arch = "aarch64", target_feature = "neon"))] {
                 impl_aarch64_call!(vmulq_u16, self, rhs)
             } else {
-                impl_u16x16_op!(self, mul, rhs)
+                // Lanes wrap around like the SIMD instructions do (and like a release build).
+                impl_u16x16_op!(self, wrapping_mul, rhs)
             }
         }
     }
